@@ -178,8 +178,10 @@ func init() {
 			return []Job{
 				{Pkg: "filterlist", Func: "verifC14Storage", Args: []int64{0}, Raw: true},
 				{Pkg: "filterlist", Func: "verifC14Storage", Args: []int64{1}, Raw: true},
-				{Pkg: "filterlist", Func: "verifC14File", Raw: true},
-				{Pkg: "filterlist", Func: "verifC14StorageFile", Raw: true},
+				{Pkg: "filterlist", Func: "verifC14File", Args: []int64{8}, Raw: true},
+				{Pkg: "filterlist", Func: "verifC14File", Args: []int64{16}, Raw: true},
+				{Pkg: "filterlist", Func: "verifC14StorageFile", Args: []int64{8}, Raw: true},
+				{Pkg: "filterlist", Func: "verifC14StorageFile", Args: []int64{16}, Raw: true},
 				{Pkg: "rules", Func: "verifC14Rule", Args: []int64{0}, Raw: true},
 				{Pkg: "rules", Func: "verifC14Rule", Args: []int64{1}, Raw: true},
 				{Pkg: "root", Func: "verifC14DNS"},
@@ -233,15 +235,20 @@ func init() {
 					continue
 				}
 				cold := len(r.Job.Args) == 0 || r.Job.Args[0] == 0
-				if len(r.Job.Args) > 0 && r.Job.Args[0] == 1 {
-					hasWarm[r.Job.Func] = true
+				gname := r.Job.Func
+				if len(r.Job.Args) > 0 && r.Job.Args[0] > 1 {
+					// the argument is a size, not a cold/warm flag: its own group
+					gname, cold = r.Job.Name(), true
 				}
-				if _, ok := groups[r.Job.Func]; !ok {
-					order = append(order, r.Job.Func)
+				if len(r.Job.Args) > 0 && r.Job.Args[0] == 1 {
+					hasWarm[gname] = true
+				}
+				if _, ok := groups[gname]; !ok {
+					order = append(order, gname)
 				}
 				nsync := 0
 				for _, t := range r.Traces {
-					groups[r.Job.Func] = append(groups[r.Job.Func], tr{t, cold, r.Job.Name()})
+					groups[gname] = append(groups[gname], tr{t, cold, r.Job.Name()})
 					for _, e := range t {
 						if e.Kind != "read" && e.Kind != "write" {
 							nsync++
